@@ -139,6 +139,20 @@ def s_iter_any_all(e, st, callee, args, dty):
     return Bool(z3.And(*terms) if terms else z3.BoolVal(True))
 
 
+def s_iter_position(e, st, callee, args, dty):
+    """Iterator::position(pred) over a list: Some(i) for the first element whose predicate holds, None if none does"""
+    l = as_list(e, st, args[0])
+    if l is None:
+        return NotImplemented
+    terms = [closure_term(e, st, args[1], [it]) for it in l.items]
+    alts = []
+    for i, t in enumerate(terms):
+        cond = z3.And(*([z3.Not(x) for x in terms[:i]] + [t]))
+        alts.append((cond, EnumV("Option", "Some", 1, {0: Int(z3.BitVecVal(i, 64), "usize")})))
+    alts.append((z3.And(*[z3.Not(x) for x in terms]) if terms else None, EnumV("Option", "None", 0, {})))
+    return alts
+
+
 def s_iter_map(e, st, callee, args, dty):
     l = as_list(e, st, args[0])
     if l is None:
@@ -322,6 +336,7 @@ LIST = {
     r"^(std::vec::|alloc::vec::)?Vec::retain$": s_retain,
     r"^<.* as (std::iter::)?Iterator>::partition$": s_iter_partition,
     r"^<.* as (std::iter::)?Iterator>::(any|all)$": s_iter_any_all,
+    r"^<.* as (std::iter::)?Iterator>::position$": s_iter_position,
     r"^<.* as (std::iter::)?Iterator>::map$": s_iter_map,
     r"^<.* as (std::iter::)?Iterator>::flat_map$": s_iter_flat_map,
     r"^<.* as (std::iter::)?Iterator>::rev$|^<.* as (std::iter::)?DoubleEndedIterator>::rev$": s_iter_rev,
